@@ -196,21 +196,69 @@ def _same(a, b):
     return False
 
 
-def _merge_slots(conds, slots):
+def _snap(slot, st):
+    """value snapshot of a slot for merging across branches (containers by value, objects as opaque identities)"""
+    from .sym import EMPTY_LIST, const_to_val
+    if isinstance(slot, Val):
+        return slot
+    if isinstance(slot, Ref):
+        c = st.heap.get(slot.id)
+        if c is None:
+            return Val("o", z3.IntVal(1000000 + slot.id))
+        if c.kind == "obj":
+            idv = c.fields.get("__id")
+            return Val("o", idv.e if isinstance(idv, Val) else z3.IntVal(1000000 + slot.id))
+        return c.val
+    if isinstance(slot, Tup):
+        e = EMPTY_LIST
+        for it in slot.items:
+            e = z3.Concat(e, z3.Unit(_snap(it, st).any()))
+        return Val("l", e)
+    if isinstance(slot, PyConst):
+        try:
+            return const_to_val(slot.obj)
+        except TypeError:
+            pass
+    return Val("o", z3.IntVal(abs(hash(repr(slot))) % 10**9))
+
+
+def _merge_slots(conds, slots, states=None, out=None):
     first = slots[0]
     if all(_same(first, s) for s in slots[1:]):
         return first
     if all(isinstance(s, Val) for s in slots):
-        out = slots[-1]
+        res = slots[-1]
         for c, s in zip(reversed(conds[:-1]), reversed(slots[:-1])):
-            out = ite_val(c, s, out)
-        return out
+            res = ite_val(c, s, res)
+        return res
     if all(isinstance(s, Tup) for s in slots) and len({len(s.items) for s in slots}) == 1:
-        return Tup([_merge_slots(conds, [s.items[k] for s in slots]) for k in range(len(first.items))])
-    raise MergeFail("slots of different meta-kinds")
+        return Tup([_merge_slots(conds, [s.items[k] for s in slots], states, out) for k in range(len(first.items))])
+    if states is None:
+        raise MergeFail("slots of different meta-kinds")
+    if all(isinstance(s, (FuncRef, ClassRef, ModuleRef, ExtRef, Builtin)) for s in slots):
+        if len({repr(s) for s in slots}) == 1:
+            return first
+    # different references / kinds on different paths: merge BY VALUE and freeze the originals (any later mutation
+    # through one of them would be invisible to the other alias -> out of subset instead of unsound)
+    for s, stt in zip(slots, states):
+        if isinstance(s, Ref) and s.id in out.heap:
+            c = out.heap[s.id].copy()
+            c.frozen = True
+            out.heap[s.id] = c
+    vals = [_snap(s, stt) for s, stt in zip(slots, states)]
+    kinds = {(stt.heap[s.id].kind if isinstance(s, Ref) and s.id in stt.heap else None) for s, stt in zip(slots, states)}
+    res = vals[-1]
+    for c, v in zip(reversed(conds[:-1]), reversed(vals[:-1])):
+        res = ite_val(c, v, res)
+    if len(kinds) == 1 and next(iter(kinds)) in ("dict", "list", "set") and res.tag in ("d", "l", "st"):
+        r = Ref()
+        cell = Cell(next(iter(kinds)), val=res)
+        out.heap[r.id] = cell
+        return r
+    return res
 
 
-def merge_states(states: list[State]) -> State:
+def merge_states(states: list[State], strict_log=False) -> State:
     """Join point: one state whose values are ite-merged.  Raises MergeFail when aliasing / logs differ."""
     if len(states) == 1:
         return states[0]
@@ -222,31 +270,43 @@ def merge_states(states: list[State]) -> State:
     out = State()
     out.pc = list(states[0].pc[:k]) + [z3.Or(*conds)]
     l0 = states[0].log
-    for s in states[1:]:
-        if len(s.log) != len(l0) or any(a is not b for a, b in zip(s.log, l0)):
+    same_log = all(len(s.log) == len(l0) and all(a is b for a, b in zip(s.log, l0)) for s in states[1:])
+    if not same_log:
+        if strict_log:
             raise MergeFail("external-call logs differ")
-    out.log = list(l0)
+        k2 = 0
+        while all(len(s.log) > k2 for s in states) and all(s.log[k2] is l0[k2] for s in states[1:]):
+            k2 += 1
+        out.log = list(l0[:k2])  # the ghost call log is only kept where all paths agree (contracts that read it set track_calls)
+    else:
+        out.log = list(l0)
+    ids0 = set()
+    for s in states:
+        ids0 |= set(s.heap)
+    for rid in ids0:  # provisional heap so that value-merging can freeze cells
+        for s in states:
+            if rid in s.heap:
+                out.heap[rid] = s.heap[rid]
+                break
     names = set(states[0].vars)
     for s in states[1:]:
         names &= set(s.vars)
     for nme in names:
-        try:
-            out.vars[nme] = _merge_slots(conds, [s.vars[nme] for s in states])
-        except MergeFail:
-            raise
+        out.vars[nme] = _merge_slots(conds, [s.vars[nme] for s in states], states, out)
     for g in states[0].ghost:
         if all(g in s.ghost for s in states):
-            out.ghost[g] = _merge_slots(conds, [s.ghost[g] for s in states])
+            out.ghost[g] = _merge_slots(conds, [s.ghost[g] for s in states], states, out)
     ids = set()
     for s in states:
         ids |= set(s.heap)
     for rid in ids:
         cells = [s.heap.get(rid) for s in states]
         present = [c for c in cells if c is not None]
+        frozen_by_merge = rid in out.heap and out.heap[rid].frozen
         if len(present) < len(cells):
-            # allocated on some paths only: unreachable from merged variables unless the variable itself
-            # failed to merge; keep the cell (harmless)
-            out.heap[rid] = present[0]
+            # allocated on some paths only: reachable only through variables that were merged by value
+            if not frozen_by_merge:
+                out.heap[rid] = present[0]
             continue
         c0 = cells[0]
         if all(c is c0 for c in cells):
@@ -255,7 +315,7 @@ def merge_states(states: list[State]) -> State:
         if any(c.kind != c0.kind for c in cells):
             raise MergeFail("cell kinds differ")
         m = c0.copy()
-        m.frozen = any(c.frozen for c in cells)
+        m.frozen = any(c.frozen for c in cells) or frozen_by_merge
         if c0.kind == "obj":
             keys = set()
             for c in cells:
@@ -264,8 +324,8 @@ def merge_states(states: list[State]) -> State:
                 if not all(f in c.fields for c in cells):
                     if not c0.lazy:
                         raise MergeFail(f"field {f} on one path only")
-                m.fields[f] = _merge_slots(conds, [c.fields[f] if f in c.fields else lazy_field(c, f) for c in cells])
+                m.fields[f] = _merge_slots(conds, [c.fields[f] if f in c.fields else lazy_field(c, f) for c in cells], states, out)
         else:
-            m.val = _merge_slots(conds, [c.val for c in cells])
+            m.val = _merge_slots(conds, [c.val for c in cells], states, out)
         out.heap[rid] = m
     return out
